@@ -13,6 +13,10 @@ import (
 
 const vhMaxInput = 3 // @tier quick=3 thorough=4
 
+// a single Next on an input of <= 4 bytes takes a few thousand interpreter
+// steps; far beyond this bound it is not terminating
+const vhNextSteps = 400000
+
 // ---------------------------------------------------------------------
 // Reference lexer, written from the statement of C03.
 
@@ -262,13 +266,17 @@ func vhC07Run(rules Rules) {
 	lex, _ := def.LexString("f", in)
 	calls := 0
 	for {
+		vStepLimit(vhNextSteps, "C07: Next did not terminate within the step bound")
 		t, err := lex.Next()
+		vStepLimit(0, "")
 		calls++
 		vAssert(calls <= len(in)+1, "C07: more Next calls than input bytes + 1")
 		if err != nil {
 			vReach("error")
 			// a further call after an error must not panic
+			vStepLimit(vhNextSteps, "C07: Next after an error did not terminate within the step bound")
 			lex.Next()
+			vStepLimit(0, "")
 			return
 		}
 		if t.EOF() {
@@ -291,7 +299,7 @@ func vhC07Step(rules Rules, pushable []string, withGroups bool) {
 	in := vhInput()
 	depth := 1
 	if len(pushable) > 0 {
-		depth += vChoose("depth", 2)
+		depth += vChoose("depth", 1+len(pushable))
 	}
 	stack := make([]lexerState, 0, depth)
 	for i := 0; i < depth; i++ {
@@ -315,7 +323,9 @@ func vhC07Step(rules Rules, pushable []string, withGroups bool) {
 	}
 	l := &StatefulLexer{def: def, data: in, stack: stack, pos: Position{Filename: "f", Line: 1, Column: 1}}
 	before := len(l.data)
+	vStepLimit(vhNextSteps, "C07: Next did not terminate within the step bound")
 	t, err := l.Next()
+	vStepLimit(0, "")
 	vAssert(len(l.stack) >= 1, "C07: state stack empty after Next")
 	for _, st := range l.stack {
 		_, ok := def.rules[st.name]
@@ -361,6 +371,9 @@ func VH_C03_DotAll()         { vhC03(vhDefDotAll()) }
 func VH_C03_NonASCIILit()    { vhC03(vhDefNonASCIILit()) }
 func VH_C03_NegClass()       { vhC03(vhDefNegClass()) }
 func VH_C03_Possessive()     { vhC03(vhDefPossessive()) }
+
+func VH_C03_ReturnNested() { vhC03(vhDefReturnNested()) }
+func VH_C03_ReturnSelf()   { vhC03(vhDefReturnSelf()) }
 
 func VH_C03_Canary() {
 	in := vhInput()
@@ -424,6 +437,7 @@ func VH_C07_Step_String()       { vhC07Step(vhDefString(), []string{"String"}, f
 func VH_C07_Step_Return()       { vhC07Step(vhDefReturn(), []string{"Cmt"}, false) }
 func VH_C07_Step_PopInRoot()    { vhC07Step(vhDefPopInRoot(), nil, false) }
 func VH_C07_Step_ReturnInRoot() { vhC07Step(vhDefReturnInRoot(), nil, false) }
+func VH_C07_Step_ReturnNested() { vhC07Step(vhDefReturnNested(), []string{"S1", "S2"}, false) }
 func VH_C07_Step_Backref()      { vhC07Step(vhDefBackref(), []string{"H"}, true) }
 
 func VH_C07_Canary() {
